@@ -57,6 +57,22 @@ func c04Sessions(tier string) [][]string {
 		// closure factories called with EQUAL arguments must still give independent closures (solver: a == b)
 		[]string{"func mk(k){()=>{k=k+1;k}}", "g=mk(a); g()", "h=mk(b); h()", "g()", "h()"},
 		[]string{"func acc(){t=[]; (e)=>{t=t+[e]; t}}", "p1=acc(); p1(a)", "p2=acc(); p2(b)", "p1(c)"},
+		// a result that was an error turned into a value (catch), or a function, still depends on what the callee read
+		[]string{"func outer(u){catch(hh(u)).err}", "outer(a)", "func hh(u){u}", "outer(a)", "outer(b)"},
+		[]string{"func outer(u){catch(u+zz).err}", "outer(a)", "zz=b", "outer(a)"},
+		[]string{"v=a; func rd4(u){if v==b {error(\"e\")}; v+u}; func w4(u){catch(rd4(u)).value}", "w4(c)", "v=b", "w4(c)", "v=c", "w4(c)"},
+		[]string{"v=a; func mk4(u){w=v; func(y){y+u}}; func use4(u){mk4(u)(1)+v}", "use4(c)", "v=b", "use4(c)"},
+		[]string{"v=a; func rd5(){if v==a {error(\"is a\")}; v}; func w5(){r=catch(rd5()); if r.err {0-1} else {r.value}}", "w5()", "v=b", "w5()", "v=a", "w5()"},
+		// the sign of zero and the int/float distinction inside container arguments
+		[]string{"func sg(u){println(\"sg\", u, 1/u[0]); u}", "sg([0.0, 1])", "sg([-0.0, 1])", "sg([0.0, 1])"},
+		[]string{"func sg2(u){println(\"sg2\", 1/u[1]); 1}", "sg2({1: 0.0})", "sg2({1: -0.0})"},
+		[]string{"func sg3(u){println(\"sg3\", 1/u[0][0]); 1}", "sg3([[x]])", "sg3([[y]])", "sg3([[x]])"},
+		[]string{"func ty(u){println(\"ty\", u[0]/2); u}", "ty([3])", "ty([3.0])", "ty([3])"},
+		[]string{"func ty2(u){println(\"ty2\", u.k/2); 1}", "ty2({\"k\": a})", "ty2({\"k\": x})"},
+		// closures inside a returned container are results with state too
+		[]string{"func mkc(n){cn=n; [()=>{cn=cn+1; cn}]}", "q1=mkc(a); q1[0]()", "q2=mkc(a); q2[0]()", "q1[0]()", "q2[0]()"},
+		[]string{"func mkm(n){cn=n; {\"inc\": ()=>{cn=cn+1; cn}}}", "q1=mkm(a); q1.inc()", "q2=mkm(a); q2.inc()", "q1.inc()"},
+		[]string{"func mkn(n){cn=n; [[()=>{cn=cn+2; cn}], 0]}", "q1=mkn(a)[0][0]; q1()", "q2=mkn(a)[0][0]; q2()", "q1()"},
 	)
 	return out
 }
@@ -165,6 +181,32 @@ func c05Sessions(tier string) [][]string {
 	add("for i = 3 {println(i); i = 5}")
 	add("t = 0", "for i = 4 {for i = 2 {t = t + i}}", "t")
 	add("func fx(n){n=n*2; for n=k0 {println(n)}; n}", "fx(a)")
+	// third round of corner cases: list loops over a registered name, duplicate and extension-named parameters,
+	// a register captured by catch / quote / a container, assignment in the last iteration, postfix as a block value
+	add("func f(n){for n = [\"p\", \"q\"] {println(n)}; n}", "f(a)")
+	add("func f(n){for n = {1: 2} {println(n)}}", "f(a)")
+	add("func f(n){for n = \"xy\" {println(n)}; n}", "f(a)")
+	add("for i = 2 {for i = [7, 8] {println(i)}; println(i)}")
+	add("func f(n, n){n}", "f(a, b)")
+	add("func f(n, m, n){n + m}", "f(a, b, 7)")
+	add("func f(len2, max){max + 1}", "f(a, b)")
+	add("for max = 2 {println(max)}")
+	add("for i = 3 {m = catch(i)}", "for j = 5 {}", "m.value")
+	add("func f(n){r = catch(n); n = n + 1; r.value}", "f(a)")
+	add("for i = 3 {q = quote(i + 1)}", "q")
+	add("func f(n){quote(n + 1)}", "f(a)")
+	add("for i = 3 {w = [i]; v = {1: i}}", "for j = 7 {}", "println(w, v)")
+	add("for i = 3 {i = i * 10}", "i")
+	add("for i = 4 {for j = 3 {j = j + i}; println(j)}")
+	add("for i = 3 {++i}", "i")
+	add("func f(n){n++}", "f(a)")
+	add("func f(n){for i = 3 {n++}}", "f(a)")
+	add("for i = 3 {i++}")
+	add("func f(n){if n > b {n--} else {n++}}", "f(a)")
+	add("func f(n){g = n => n + 1; g(5) + n}", "f(a)")
+	add("for i = 3 {g = i => i * 2; println(g(i))}")
+	add("func f(n){h = func(m){n = n + m; n}; h(1); h(2); n}", "f(a)")
+	add("func f(n){[n][0] + {n: n}[n] + (n => n)(n)}", "f(a)")
 	return out
 }
 
@@ -180,7 +222,7 @@ func init() {
 		},
 		Budget: map[string]time.Duration{"quick": 8 * time.Minute, "thorough": 60 * time.Minute},
 		Reach:  []string{"cache switch effective"},
-		Bounds: map[string]interface{}{"histories": "a prelude defining 15 functions/closure factories, then every ordered pair (i,j) of 29 menu inputs evaluated as i, j, i (841 sessions; thorough adds i,j,k,i,j), plus 10 targeted sessions (closure factories over lower-case / UPPER-CASE / function-valued captures, redefinition of a callee, deleted and re-bound constant, outer-state reader/writer, printing, failing, recursive functions)",
+		Bounds: map[string]interface{}{"histories": "a prelude defining 15 functions/closure factories, then every ordered pair (i,j) of 29 menu inputs evaluated as i, j, i (841 sessions; thorough adds i,j,k,i,j), plus 31 targeted sessions (incl. errors turned into values by catch, results that are functions or contain closures, a missing identifier defined later, the sign of zero and int/float inside container arguments) (closure factories over lower-case / UPPER-CASE / function-valued captures, redefinition of a callee, deleted and re-bound constant, outer-state reader/writer, printing, failing, recursive functions)",
 			"values": "all int64 for a,b,c; float64 x,y; booleans; 2-byte strings; k0,k1 in 0..3"},
 		Assumptions: []string{"memoization is switched off by an overlay of eval/memo.go regenerated from the current source with an `if verifCacheOff` guard at the top of Cache.Get and Cache.Set (effectiveness probed on every path: label 'cache switch effective')"},
 		Outside:     []string{"longer histories", "non-deterministic extensions (rand, time.now) - need extensions.Init"},
